@@ -2257,7 +2257,9 @@ func (r *Raft) isMember(id string) bool {
 // isSingleServerCluster returns true if the current configuration only contains
 // this node as a voting member.
 func (r *Raft) isSingleServerCluster() bool {
-	return len(r.configuration.Members) == 1 && r.configuration.IsVoter[r.id]
+	// Non-voting members neither vote nor count towards a quorum: a node that is the only
+	// voting member has to elect itself, commit and confirm its leadership on its own.
+	return r.configuration.IsVoter[r.id] && r.hasQuorum(1)
 }
 
 // pendingConfigurationChange returns true if the current configuration
